@@ -54,9 +54,9 @@ Definition pather_update (st : pstate) (lia_ok : bool) (dstIAs : list Z) (answer
 
 (* one measurement round of a reference clock whose server is in IA q: the offered paths are Paths(q);
    the clients' requests go to the identities of the paths they were assigned *)
-Definition pather_round (st : pstate) (q : Z) (cs : list cstate) (d : Z) (tape : list Z)
+Definition pather_round (c : bool) (st : pstate) (q : Z) (cs : list cstate) (d : Z) (tape : list Z)
   (mss : list (list pmode)) (vss : list (list Z)) : round_res :=
-  run_round (map snd (pather_paths st q)) cs d tape mss vss.
+  run_round_c c (map snd (pather_paths st q)) cs d tape mss vss.
 
 (* ---- property oracle at this level ----
    "every participating client probes over a different path ... and no more clients take part than there are
@@ -69,7 +69,7 @@ Fixpoint index_of (x : Z) (l : list Z) (i : Z) : Z :=
 
 Definition with_hops (o : cobs) (h : list Z) : cobs :=
   {| ob_ilv := ob_ilv o; ob_fp := ob_fp o; ob_filter := ob_filter o; ob_hops := h; ob_resets := ob_resets o;
-     ob_first := ob_first o; ob_vals := ob_vals o |}.
+     ob_first := ob_first o; ob_vals := ob_vals o; ob_old := ob_old o |}.
 
 (* positions -> identities (what is seen of the model's clients), identities -> positions (what the oracle does) *)
 Definition hops_out (ids : list Z) (o : cobs) : cobs :=
